@@ -36,15 +36,11 @@ def bh_exact(p):
     """Benjamini-Hochberg step-up values from the definition (no sorting): exact rationals."""
     p = [frac(x) for x in p]
     n = len(p)
+    vals = sorted(set(p))
+    cand = {v: min(Fraction(1), n * v / sum(1 for w in p if w <= v)) for v in vals}     # min(1, n v / #{p_j <= v})
     out = []
     for u in p:
-        best = None
-        for v in p:
-            if v >= u:
-                c = sum(1 for w in p if w <= v)
-                val = min(Fraction(1), n * v / c)
-                best = val if best is None or val < best else best
-        out.append(best)
+        out.append(min(cand[v] for v in vals if v >= u))
     return out
 
 
@@ -124,9 +120,9 @@ def fdr_section(ck):
     for _ in range(nexact):
         n = int(rng.integers(1, 17))
         cases.append((gen_exact_p(rng, n), True))
-    nfloat = ck.n(150, 1500)
+    nfloat = ck.n(150, 800)
     for _ in range(nfloat):
-        n = int(rng.integers(1, ck.n(60, 200)))
+        n = int(rng.integers(1, ck.n(60, 120)))
         kind = rng.integers(0, 4)
         if kind == 0:
             x = rng.random(n)
@@ -491,8 +487,6 @@ def contrast_section(ck):
             e = e * 10.0 ** float(rng.integers(20, 150)) * (1 if rng.random() < 0.5 else -1)
         base = 0.0 if rng.random() < 0.7 else float(rng.integers(-3, 4))
         for name, mk, fstat, fp, fz in impls:
-            if name == "labs" and dim > 1 and typ == "F" and np.any(V < 0):
-                continue      # labs multi-row F with negative covariances: see section E (known finding)
             log = []
             mod = fg if name == "fmri" else lg
             saved = (mod.sps, ut.norm)
@@ -598,11 +592,19 @@ def contrast_section(ck):
     NE = ck.n(150, 1500)
     for it in range(NE):
         dim = int(rng.integers(1, 5))
-        A = rng.integers(-3, 4, (dim, dim + 1))
-        Vi = A @ A.T + np.diag(rng.integers(1, 4, dim))
-        if rng.random() < 0.3:
-            Vi = np.abs(Vi)
-            Vi = Vi @ Vi.T + np.eye(dim, dtype=int)       # all entries positive
+        Li = None
+        rr = rng.random()
+        if rr < 0.4:
+            # V = L L^t with an integer lower-triangular L, positive diagonal: the Cholesky factor is exactly L
+            Li = np.tril(rng.integers(-3, 4, (dim, dim)))
+            Li[np.arange(dim), np.arange(dim)] = rng.integers(1, 5, dim)
+            Vi = Li @ Li.T
+        else:
+            A = rng.integers(-3, 4, (dim, dim + 1))
+            Vi = A @ A.T + np.diag(rng.integers(1, 4, dim))
+            if rr > 0.8:
+                Vi = np.abs(Vi)
+                Vi = Vi @ Vi.T + np.eye(dim, dtype=int)       # all entries positive
         ei = rng.integers(-30, 31, dim)
         sc = Fraction(1, 2 ** int(rng.integers(0, 6)))
         e = [Fraction(int(x)) * sc for x in ei]
@@ -621,26 +623,24 @@ def contrast_section(ck):
             rep = {"impl": name, "effect": [float(x) for x in e], "variance": Vi.tolist(), "baseline": float(b), "F": st, "exact": float(Fx)}
             if abs(frac(st) - Fx) > Fraction(1, 10 ** 10) * max(1, abs(Fx)):
                 if name == "labs" and dim > 1 and neg:
-                    ck.fail("F/labs-negative-covariance", "labs.glm contrast F = %r but e' V^-1 e / q = %r (np.maximum(variance, tiny) overwrites negative covariances)" % (st, float(Fx)), rep)
+                    ck.fail("F/labs-negative-covariance", "labs.glm contrast F = %r but e' V^-1 e / q = %r (= fmri.glm.Contrast) for a covariance matrix with a negative entry" % (st, float(Fx)), rep)
                 else:
                     ck.fail("F/not-mahalanobis-over-q/%s/dim%d" % (name, dim), "%s F = %r, expected e' V^-1 e / q = %r" % (name, st, float(Fx)), rep)
-            if name == "fmri" or dim == 1:
-                add_term("is_inverse_q %s %s && qrelclose %s (fstat_q %s %s %s) %s" % (
-                    cmatq(Vq), cmatq(Wq), cq(Fraction(1, 10 ** 10)), cql(e), cq(b), cmatq(Wq), cq(frac(st))),
-                    "F/model-vs-impl/%s" % name, "model and %s disagree on the multi-row F statistic" % name, rep)
-            else:
-                # labs as coded: the inverse is taken of np.maximum(V, tiny) (model: labs_floor); a dyadic floor keeps the rationals small
-                tf_ = 2.0 ** -20
-                tq = frac(tf_)
-                cl = mk([[float(x)] for x in e], [[[float(x)] for x in r] for r in Vq], 20.0, "F", tiny=tf_)
-                stl = float(np.ravel(cl.stat(float(b)))[0])
-                Vl = [[max(x, tq) for x in r] for r in Vq]
-                Wl = [[Fraction(int(x.p), int(x.q)) for x in row] for row in
-                      sympy.Matrix([[sympy.Rational(x.numerator, x.denominator) for x in r] for r in Vl]).inv().tolist()]
-                add_term("is_inverse_q (labs_floor %s %s) %s && qrelclose %s (fstat_q %s %s %s) %s" % (
-                    cq(tq), cmatq(Vq), cmatq(Wl), cq(Fraction(1, 10 ** 9)), cql(e), cq(b), cmatq(Wl), cq(frac(stl))),
-                    "F/model-vs-impl/labs-floored", "model (with the element-wise floor, as coded) and labs disagree on the multi-row F statistic",
-                    dict(rep, tiny=tf_, F_labs=stl))
+            add_term("is_inverse_q %s %s && qrelclose %s (fstat_q %s %s %s) %s" % (
+                cmatq(Vq), cmatq(Wq), cq(Fraction(1, 10 ** 10)), cql(e), cq(b), cmatq(Wq), cq(frac(st))),
+                "F/model-vs-impl/%s" % name, "model and %s disagree on the multi-row F statistic" % name, rep)
+            if name == "labs" and Li is not None:
+                # labs route as coded (fff_mahalanobis): Cholesky factor L, forward substitution L y = d, sum of squares / dim
+                y = []
+                for r_ in range(dim):
+                    y.append((d[r_] - sum(Fraction(int(Li[r_, c_])) * y[c_] for c_ in range(r_))) / int(Li[r_, r_]))
+                Lq = [[Fraction(int(x)) for x in r] for r in Li]
+                add_term("labs_solve_ok %s %s %s %s %s && qrelclose %s (labs_fstat_q %s) %s" % (
+                    cmatq(Vq), cmatq(Lq), cql(y), cql(e), cq(b), cq(Fraction(1, 10 ** 10)), cql(y), cq(frac(st))),
+                    "F/model-vs-impl/labs-cholesky", "Cholesky-route model (dpotrf, dtrsv, ssd / dim) and labs disagree on the multi-row F statistic", rep)
+        if len(res) == 2 and abs(res["fmri"] - res["labs"]) > 1e-10 * max(1.0, abs(res["fmri"])):
+            ck.fail("F/labs-differs-from-fmri/" + ("negcov" if neg else "poscov"), "labs F = %r, fmri F = %r on the same effect/variance" % (res["labs"], res["fmri"]),
+                    {"effect": [float(x) for x in e], "variance": Vi.tolist(), "baseline": float(b), "labs": res["labs"], "fmri": res["fmri"]})
         # unimodular recombination of the rows (fmri; labs when covariances stay positive)
         M = np.eye(dim, dtype=int)
         for _ in range(int(rng.integers(1, 5))):
@@ -653,16 +653,15 @@ def contrast_section(ck):
         if b == 0:
             e2 = M @ np.array([float(x) for x in e])
             V2 = M @ Vi.astype(float) @ M.T
-            c2 = mk_fmri(fg, e2[:, None], V2[:, :, None], 20.0, "F")
-            s2 = float(c2.stat()[0])
-            if abs(s2 - res["fmri"]) > 1e-9 * max(1.0, abs(res["fmri"])):
-                ck.fail("F/not-rowspace-invariant/fmri/dim%d" % dim, "F changes from %r to %r under the unimodular recombination %s" % (res["fmri"], s2, M.tolist()),
-                        {"effect": [float(x) for x in e], "variance": Vi.tolist(), "M": M.tolist(), "F": res["fmri"], "F_recombined": s2})
+            for name, mk, fstat, fp, fz in impls:
+                c2 = mk(e2[:, None], V2[:, :, None], 20.0, "F")
+                s2 = float(np.ravel(getattr(c2, fstat)())[0])
+                if abs(s2 - res[name]) > 1e-9 * max(1.0, abs(res[name])):
+                    ck.fail("F/not-rowspace-invariant/%s/dim%d" % (name, dim), "%s F changes from %r to %r under the unimodular recombination %s" % (name, res[name], s2, M.tolist()),
+                            {"impl": name, "effect": [float(x) for x in e], "variance": Vi.tolist(), "M": M.tolist(), "F": res[name], "F_recombined": s2})
             # positive scaling: t/F, p, z unchanged (variance far above the floor)
             k = float(rng.integers(1, 50)) / 4.0
             for name, mk, fstat, fp, fz in impls:
-                if name == "labs" and dim > 1 and neg:
-                    continue
                 c0 = mk([[float(x)] for x in e], [[[float(x)] for x in r] for r in Vq], 20.0, "F" if dim > 1 else "t")
                 ck_ = k * c0
                 a0 = [np.ravel(getattr(c0, f)()) for f in (fstat, fp, fz)]
@@ -773,7 +772,7 @@ def results_section(ck):
 def run(ck):
     ck.cov["rule"] = ("fdr: exhaustive p-vectors of length <= 3 (4 thorough) over a 6-point grid + random vectors n<=16 on the "
                       "exactness lattice m*lcm(1..n)/2^40 with planted zeros/ones/ties (exact model comparison) + random float "
-                      "vectors n<=60 (200) compared through the model at 1e-12; distinct by the p-vector; non-trivial when n>1")
+                      "vectors n<=60 (120) compared through the model at 1e-12; distinct by the p-vector; non-trivial when n>1")
     import time
     t0 = time.time()
     ck.coq_build()
